@@ -779,7 +779,8 @@ def rand_cfg(rng, tags=False, doc=None):
     return cfg
 
 
-WORDS = ["x", "y", "x y", "hello world", "z", " ", "a  b", " a", "b ", "\n", "one two three", "one three", "a\tb"]
+WORDS = ["x", "y", "x y", "hello world", "z", " ", "a  b", " a", "b ", "\n", "one two three", "one three", "a\tb",
+         "\xa0", "\xa0\xa0", "    ", "\u3000", "note book", "notebook", "line .", "line."]   # incl. blank texts that differ, joined words
 
 
 def gen_struct(rng, n):
@@ -798,6 +799,18 @@ def gen_struct(rng, n):
         out.append({"kind": "struct", "left": l, "right": r, "cfg": rand_cfg(rng),
                     "opts": rng.choice(gen.OPTION_SETS), "late": rng.random() < 0.15})
     return out
+
+
+def gen_defaultns():
+    """both roots declare the SAME default namespace (and maybe a prefixed one): inserts, moves, renames, text updates"""
+    pairs = [
+        ('<a xmlns="urn:d"><b/></a>', '<a xmlns="urn:d"><b/><c>t</c></a>'),
+        ('<a xmlns="urn:d"><b>x</b><c/></a>', '<a xmlns="urn:d"><c><b>y</b></c><d k="1"/></a>'),
+        ('<a xmlns="urn:d" xmlns:p="urn:p"><b/><p:c>t</p:c></a>', '<a xmlns="urn:d" xmlns:p="urn:p"><p:c>t</p:c><b><p:e/><f/></b></a>'),
+        ('<doc xmlns="urn:d"><p>one two</p></doc>', '<doc xmlns="urn:d"><p>one three</p><p>new</p></doc>'),
+    ]
+    return [{"kind": "struct", "left": l, "right": r, "cfg": {"normalize": WS_NONE, "replace": rep, "tt": [], "fmt": []},
+             "opts": {}, "late": False} for l, r in pairs for rep in (False, True)]
 
 
 def gen_emptyvals():
@@ -1253,6 +1266,7 @@ def gen_inputs(run, rng):
     cases += gen_subattrs(rng, 60 if quick else 600)
     cases += gen_perms()
     cases += gen_emptyvals()
+    cases += gen_defaultns()
     cases += gen_wsonly(rng, 40 if quick else 300)
     cases += gen_latectr(rng, 80 if quick else 800)
     cases += gen_sibshift(rng, 40 if quick else 300)
